@@ -176,3 +176,28 @@ func SequenceContains(seq, obj Object) (found bool, err error) {
 	}
 	return found, err
 }
+
+// Repeats items n times for list * n and tuple * n
+//
+// Returns a MemoryError if the result has more items than can be
+// allocated
+func repeatItems(items []Object, n int) (res []Object, err error) {
+	m := len(items)
+	if n <= 0 || m == 0 {
+		return []Object{}, nil
+	}
+	size := m * n
+	if size/n != m {
+		return nil, ExceptionNewf(MemoryError, "repeated sequence is too long")
+	}
+	defer func() {
+		if r := recover(); r != nil {
+			err = ExceptionNewf(MemoryError, "cannot allocate %d items", size)
+		}
+	}()
+	res = make([]Object, size)
+	for i := 0; i < len(res); i += m {
+		copy(res[i:i+m], items)
+	}
+	return res, nil
+}
